@@ -21,7 +21,8 @@ ASSUMPTIONS = ['the span list itself is C06\'s subject; here every returned pept
 
 RULES = ['trypsin', 'trypsin/P', 'lys-c', 'lys-n', 'asp-n', '([KR])']
 PROTEINS_Q = ['K', 'AK', 'KA', 'KP', 'DK', 'AKA', 'KAK', 'RKD', 'AKPR', 'KDKA', 'DAKR', 'AKRDA', 'KAAKP', 'ADKARK',
-              'AKAKAK', 'KAKAKAR']   # tandem repeats: a missed-cleavage peptide overlaps its own next occurrence
+              'AKAKAK', 'KAKAKAR',   # tandem repeats: a missed-cleavage peptide overlaps its own next occurrence
+              'AKADPRAKAADKR']       # 13 residues: offsets, interval bounds and modified positions with two digits
 AXES = ['r0', 'r1', 'rmid', 'rlast', 'nterm', 'cterm', 'labile', 'static', 'isotope', 'iv']
 
 
